@@ -370,7 +370,29 @@ def stages_run(name, defs, tier):
                     if not w:
                         continue
             viols.append({"def": did, "stage": stage, "tag": sub, "path": rec["path"], "w": w})
-    out = {"tlc": {k: res[k] for k in ("states", "distinct", "depth", "wall")}, "graphs": len(index), "viol": viols[:500], "n_viol": len(viols)}
+    # the passes themselves, transcribed (Compile.tla): each captured snapshot must be exactly what the
+    # specification's pass computes from the previous one.  Quick tier: the smaller graphs only.
+    comp_path = os.path.join(capdir, "defs_compile.ndjson")
+    limit = 30 if tier == "quick" else 100000
+    n_comp = 0
+    with open(comp_path, "w") as f:
+        for line in open(defs_path):
+            td = json.loads(line)
+            raw = [st for st in td["stages"] if st["stage"] == "raw"]
+            if td["hasGraph"] and raw and raw[0]["n"] <= limit and td["nB"] <= (40 if tier == "quick" else 100000):
+                f.write(line)
+                n_comp += 1
+    passdiff = []
+    comp = {"graphs": n_comp}
+    if n_comp:
+        cres = run_tlc("Compile.tla", "Compile.cfg", {"DEFS": comp_path}, workers=12, metaname="compile-" + name, timeout=3000 if tier == "quick" else 14000, xss="512m")
+        comp_ids = [json.loads(l)["id"] for l in open(comp_path)]
+        for tag, sub, rec in tlc_records(cres):
+            if tag == "PASSDIFF":
+                passdiff.append({"def": comp_ids[rec["d"] - 1], "pass": rec["pass"]})
+        comp.update({"states": cres["distinct"], "wall": cres["wall"], "ok": cres["ok"]})
+    out = {"tlc": {k: res[k] for k in ("states", "distinct", "depth", "wall")}, "graphs": len(index), "viol": viols[:500], "n_viol": len(viols),
+           "compile": comp, "passdiff": passdiff[:200]}
     with open(cache, "w") as f:
         json.dump(out, f)
     return out
